@@ -1531,6 +1531,11 @@ func (s *server) runRaw(h *hist) {
 		case err == nil:
 			h.fail(false, "c10-order", "bytes after the response to the last request: %q…", b)
 		case isTimeout(err):
+			// no EOF within the close wait.  For a closing request inside the RFC domain the oracle c10-close judges this
+			// (soft: re-run, canary); outside of it nothing would, and closed=0 would be compared as an observation
+			if _, dom := rfcPersists(h.reqs[last]); !dom {
+				markLate("close-wait")
+			}
 		default:
 			closed = true
 		}
@@ -2091,7 +2096,11 @@ func (s *server) runNbx(h *hist) {
 			do(i, s.httpRequest(h.cid, r))
 		case i == h.failAt:
 			// wait until the responses of the first connection are parsed and their job is held by the gate
-			for t0 := time.Now(); h.failAt > 0 && gt.heldN() == 0 && time.Since(t0) < 5*time.Second; {
+			for t0 := time.Now(); h.failAt > 0 && gt.heldN() == 0; {
+				if time.Since(t0) >= 5*time.Second {
+					markLate("nbx-gate-wait")
+					break
+				}
 				time.Sleep(200 * time.Microsecond)
 			}
 			if h.failAt > 0 {
@@ -2456,6 +2465,33 @@ func (m *envMonT) worstNow() time.Duration {
 	return m.worst
 }
 
+// Late fallbacks.  A few printed lines are not observations but what the executor falls back to when an observation did
+// not arrive within its patience (the pool case's G op printing "blocked" because getConn had neither returned nor could
+// block according to the bookkeeping; the raw client printing closed=0 because no EOF arrived within the close wait and no
+// oracle judges that request; an engine that could not be started).  No oracle fires for them, so neither the re-run rule
+// nor the canary rule above would look at the attempt, and the line would go to the comparison as if it had been observed.
+// Every such fallback calls markLate: the attempt is discarded and the case run again when the machine is calm, whatever
+// the canary says; a case whose fallback fires in every attempt is printed as skipped and counted (coverage group env),
+// never judged.
+var (
+	lateMu    sync.Mutex
+	lateNotes []string
+)
+
+func markLate(what string) {
+	lateMu.Lock()
+	lateNotes = append(lateNotes, what)
+	lateMu.Unlock()
+}
+
+func takeLate() []string {
+	lateMu.Lock()
+	defer lateMu.Unlock()
+	l := lateNotes
+	lateNotes = nil
+	return l
+}
+
 // skipCase: the case could not be evaluated in this environment; one result line per op keeps the protocol aligned
 // (the model answers bad-op to the unknown op as well)
 func skipCase(e *lp.Exec, lines []string, why string) {
@@ -2666,9 +2702,19 @@ func runPoolCase(e *lp.Exec, lines []string) {
 		var buf bytes.Buffer
 		e.W = bufio.NewWriter(&buf)
 		mk := envMon.mark()
+		takeLate()
 		key, nontrivial := runPoolOnce(e, lines)
 		e.W.Flush()
 		e.W = real
+		if late := takeLate(); len(late) > 0 {
+			e.Count("env", "late-fallback "+late[0])
+			if envRuns >= envReruns {
+				skipCase(e, lines, "late-"+late[0])
+				return
+			}
+			envMon.waitCalm()
+			continue
+		}
 		failed := bytes.Contains(buf.Bytes(), []byte("\n! oracle=")) || bytes.Contains(buf.Bytes(), []byte(" handoff=error:"))
 		if failed {
 			if stalled, why := envMon.stalledSince(mk); stalled {
@@ -2778,6 +2824,11 @@ func runPoolOnce(e *lp.Exec, lines []string) (string, bool) {
 					} else if time.Since(t0) < patience(5*time.Second, time.Second) {
 						continue
 					} else {
+						// neither returned nor able to block: not an observation (on a tree that has already failed the
+						// patience is short and the verdict is in: the line stays)
+						if !bad {
+							markLate("pool-get-slow")
+						}
 						isBlocked = true
 					}
 				}
@@ -2933,12 +2984,20 @@ func runCase(e *lp.Exec, lines []string) {
 			attempt = maxAttempts // a failing input is already on record: no re-runs, short time-outs (see below)
 		}
 		mk := envMon.mark()
+		takeLate()
 		if err := c.runOnce(); err != nil {
-			for _, l := range lines {
-				e.P("> %s", l)
-				e.P("engine-start-failed %v", err)
+			markLate("engine-start-failed")
+		}
+		if late := takeLate(); len(late) > 0 {
+			e.Count("env", "late-fallback "+late[0])
+			if envRuns >= envReruns {
+				skipCase(e, lines, "late-"+late[0])
+				return
 			}
-			return
+			envRuns++
+			attempt--
+			envMon.waitCalm()
+			continue
 		}
 		soft := false
 		hard := false
